@@ -55,6 +55,7 @@ class Opts:
     enums: bool = True
     array_params: bool = False
     min_ops: int = 1
+    name_clash: bool = False        # property names that class-case to a schema name / parent prefix (F36, F37)
 
 
 def _prim(r: random.Random, o: Opts, allow_enum=True) -> dict:
@@ -79,9 +80,16 @@ def _ref(n: str) -> dict:
     return {"$ref": f"#/components/schemas/{n}"}
 
 
-def gen_property(r: random.Random, o: Opts, names: list[str], me: str, earlier: list[str], depth=0) -> dict:
+def _clashes(pname: str, names: list[str]) -> bool:
+    q = re.sub(r"[^a-z0-9]", "", pname.lower())
+    return any(q.startswith(n.lower()) or n.lower().startswith(q) for n in names)
+
+
+def gen_property(r: random.Random, o: Opts, names: list[str], me: str, earlier: list[str], depth=0, pname: str = "") -> dict:
     """A property schema.  `earlier` = names this schema may reference without creating a cycle."""
     k = r.random()
+    if not o.name_clash and _clashes(pname, names) and 0.72 <= k < 0.80:
+        k = 0.1    # F37: an inline-object property whose class-cased name matches a named schema is typed as that schema
     targets = list(earlier)
     if o.cycles:
         targets = [n for n in names]
@@ -95,15 +103,21 @@ def gen_property(r: random.Random, o: Opts, names: list[str], me: str, earlier: 
         s = {"type": "array", "items": _prim(r, o, allow_enum=False)}
     elif k < 0.80 and o.inline_objects and depth < 2:
         props = {}
-        for p in r.sample(PROP_NAMES[:12], r.randint(1, 3)):
-            props[p] = gen_property(r, o, names, me, earlier, depth + 1) if r.random() < 0.3 else _prim(r, o, allow_enum=False)
+        cand = PROP_NAMES[:12]
+        if not o.name_clash:
+            # F37: a nested inline property whose class-cased name equals a named schema is typed as that schema
+            low = [n.lower() for n in names]
+            cand = [p for p in cand if not any(re.sub(r"[^a-z0-9]", "", p.lower()).startswith(n) or n.startswith(re.sub(r"[^a-z0-9]", "", p.lower())) for n in low)] or ["note"]
+        for p in r.sample(cand, min(len(cand), r.randint(1, 3))):
+            props[p] = gen_property(r, o, names, me, earlier, depth + 1, pname=p) if r.random() < 0.3 else _prim(r, o, allow_enum=False)
         s = {"type": "object", "properties": props}
         if r.random() < 0.5:
             s["required"] = r.sample(sorted(props), r.randint(0, len(props)))
     elif k < 0.86 and o.maps:
         s = {"type": "object", "additionalProperties": _prim(r, o, allow_enum=False) if r.random() < 0.7 or not targets else _ref(r.choice(targets))}
-    elif k < 0.90:
-        s = {"type": "array", "items": _ref(me)}       # self reference through an array
+    elif k < 0.90 and (depth == 0 or o.cycles):
+        s = {"type": "array", "items": _ref(me)}       # self reference through an array (top level only in mainstream:
+        #                                                through a promoted inline object it is a module cycle, F2)
     elif k < 0.95 and o.unions and len(targets) >= 2:
         s = {r.choice(["oneOf", "anyOf"]): [_ref(t) for t in r.sample(targets, 2)]}
     else:
@@ -132,7 +146,10 @@ def gen_schemas(r: random.Random, o: Opts) -> dict:
         pnames = r.sample(PROP_NAMES, r.randint(1, 6))
         if o.mainstream:
             pnames = [p for p in pnames if p not in ("class", "type")] or ["name"]
-        props = {p: gen_property(r, o, names, name, earlier) for p in pnames}
+        if not o.name_clash:
+            # F36: a property whose class-cased name starts with the schema name is taken for the schema itself
+            pnames = [p for p in pnames if not re.sub(r"[^a-z0-9]", "", p.lower()).startswith(name.lower())] or ["note"]
+        props = {p: gen_property(r, o, names, name, earlier, pname=p) for p in pnames}
         obj: dict = {"type": "object", "properties": props}
         req = [p for p in pnames if r.random() < 0.4]
         if req:
@@ -143,6 +160,10 @@ def gen_schemas(r: random.Random, o: Opts) -> dict:
         if o.all_of and objs and r.random() < 0.2:
             parent = r.choice(objs)
             own = {k: v for k, v in props.items() if k not in _all_props(schemas, parent)}
+            if not o.name_clash:
+                # promoted names inside an allOf part lose the parent prefix and collide across schemas: keep parts flat
+                own = {k: v for k, v in own.items() if "properties" not in v and "oneOf" not in v and "anyOf" not in v
+                       and not (v.get("type") == "array" and "properties" in v.get("items", {}))}
             part: dict = {"type": "object", "properties": own}
             reqo = [p for p in own if r.random() < 0.4]
             if reqo:
@@ -225,24 +246,42 @@ def gen_operation(r: random.Random, o: Opts, schemas: dict, path_vars: list[str]
     return op
 
 
+STREAM_TYPES = ("application/octet-stream", "text/event-stream", "application/x-ndjson")
+
+
+def is_stream_content(content: dict) -> bool:
+    for mt, m in (content or {}).items():
+        if mt.lower() in STREAM_TYPES + ("application/json-seq", "multipart/mixed"):
+            return True
+        if isinstance(m, dict) and isinstance(m.get("schema"), dict) and m["schema"].get("format") == "binary":
+            return True
+    return False
+
+
 def gen_responses(r: random.Random, o: Opts, schemas: dict) -> dict:
     resp: dict = {}
-    n2 = r.choice([1, 1, 1, 2])
-    codes2 = r.sample(["200", "201", "202", "204"], n2) if r.random() < 0.9 else ["206"]
-    for c in codes2:
-        if c == "204" or r.random() < 0.12:
-            resp[c] = {"description": f"status {c}"}
-            continue
-        k = r.random()
-        if k < 0.8 or not o.text_binary:
-            content = {"application/json": {"schema": gen_body_schema(r, o, schemas)}}
-        elif k < 0.9:
-            content = {"text/plain": {"schema": {"type": "string"}}}
-        else:
-            content = {"application/octet-stream": {"schema": {"type": "string", "format": "binary"}}}
-        if o.streaming and r.random() < 0.15:
-            content = {r.choice(["text/event-stream", "application/x-ndjson"]): {"schema": gen_body_schema(r, o, schemas)}}
-        resp[c] = {"description": f"status {c}", "content": content}
+    stream_op = False
+    k0 = r.random()
+    if o.text_binary and k0 < 0.07:
+        stream_op = True
+        resp[r.choice(["200", "201"])] = {"description": "binary", "content": {"application/octet-stream": {"schema": {"type": "string", "format": "binary"}}}}
+    elif o.streaming and k0 < 0.2:
+        stream_op = True
+        resp["200"] = {"description": "stream", "content": {r.choice(["text/event-stream", "application/x-ndjson"]): {"schema": gen_body_schema(r, o, schemas)}}}
+    if not stream_op or not o.mainstream:
+        n2 = r.choice([1, 1, 1, 2])
+        codes2 = r.sample(["200", "201", "202", "204"], n2) if r.random() < 0.9 else ["206"]
+        for c in codes2:
+            if c in resp:
+                continue
+            if c == "204" or r.random() < 0.12:
+                resp[c] = {"description": f"status {c}"}
+                continue
+            if r.random() < 0.85 or not o.text_binary:
+                content = {"application/json": {"schema": gen_body_schema(r, o, schemas)}}
+            else:
+                content = {"text/plain": {"schema": {"type": "string"}}}
+            resp[c] = {"description": f"status {c}", "content": content}
     if o.error_responses:
         for c in r.sample(["400", "401", "403", "404", "409", "418", "422", "429", "500", "502", "503"], r.randint(0, 3)):
             resp[c] = {"description": f"error {c}"}
@@ -250,7 +289,7 @@ def gen_responses(r: random.Random, o: Opts, schemas: dict) -> dict:
                 resp[c]["content"] = {"application/json": {"schema": {"type": "object", "properties": {"message": {"type": "string"}}}}}
     if o.redirects and r.random() < 0.4:
         resp[r.choice(["301", "302", "304", "101"])] = {"description": "redirect"}
-    if o.default_response and r.random() < 0.25:
+    if o.default_response and r.random() < 0.25 and not (stream_op and o.mainstream):
         resp["default"] = {"description": "unexpected"}
     return dict(sorted(resp.items(), key=lambda kv: r.random())) if r.random() < 0.3 else resp
 
